@@ -1,6 +1,7 @@
 package singlylinkedlist
 
 import (
+	"github.com/emirpasic/gods/v2/containers"
 	"github.com/emirpasic/gods/v2/lists"
 	v "github.com/emirpasic/gods/v2/zzvsup"
 )
@@ -56,4 +57,9 @@ func VHListStep() {
 		IndexOf: l.IndexOf,
 		Inv:     func() { VInv(l) },
 	})
+}
+
+func VHIter() {
+	l, pre := VGList()
+	containers.VIterStep(func() containers.IteratorWithIndex[int] { return l.Iterator() }, pre, l)
 }
